@@ -682,14 +682,15 @@ GIName.  It's possible for nodes to contain or point to other nodes."""
         if not self.file_positions:
             return None
 
-        res = None
-        for position in self.file_positions:
-            if position.is_typedef:
-                res = position
-            else:
-                return position
+        # file_positions is a set: pick deterministically, preferring the
+        # positions of definitions over those of typedefs
+        def sort_key(position):
+            return (position.filename or '', position.line or 0, position.column or 0)
 
-        return res
+        non_typedef = [p for p in self.file_positions if not p.is_typedef]
+        if non_typedef:
+            return min(non_typedef, key=sort_key)
+        return min(self.file_positions, key=sort_key)
 
     def add_symbol_reference(self, symbol):
         if symbol.source_filename:
